@@ -44,6 +44,7 @@ type Config struct {
 	W         int    `json:"writes"`
 	Size      int    `json:"size"`
 	Poller    bool   `json:"poller"`
+	LongPoll  bool   `json:"long_poll,omitempty"`         // poll interval 300 ms instead of 1 ms (the scheduler owns the clock: only code that looks at the duration can tell)
 	Writer    string `json:"writer"`                      // returns | yields | blocks
 	Big       bool   `json:"big,omitempty"`               // one message larger than 64 KiB
 	Early     bool   `json:"early_close,omitempty"`       // Close right after the last Write returned, without waiting for quiescence
@@ -76,6 +77,9 @@ func (c Config) String() string {
 	}
 	if c.Errs != "" {
 		m += " writer-errors=" + c.Errs
+	}
+	if c.LongPoll {
+		m += " poll=300ms"
 	}
 	return fmt.Sprintf("P%d W%d size%d %s writer=%s", c.P, c.W, c.Size, m, c.Writer)
 }
@@ -227,6 +231,9 @@ func runOnce(cfg Config, ch vsched.Chooser, keepTrace bool) *result {
 		poll := time.Duration(0)
 		if cfg.Poller {
 			poll = time.Millisecond
+			if cfg.LongPoll {
+				poll = 300 * time.Millisecond
+			}
 		}
 		var dw diode.Writer
 		nalert := 0
@@ -617,6 +624,7 @@ func genConfig(rt *rapid.T, small bool) Config {
 		c.Size = rapid.IntRange(1, 8).Draw(rt, "size")
 	}
 	c.Poller = rapid.Bool().Draw(rt, "poller")
+	c.LongPoll = c.Poller && rapid.IntRange(0, 2).Draw(rt, "longpoll") == 0
 	c.Writer = rapid.SampledFrom([]string{"returns", "returns", "yields", "blocks"}).Draw(rt, "writer")
 	if prop != "C10" && c.Writer == "blocks" {
 		c.Writer = "yields"
@@ -694,6 +702,8 @@ func dfsConfigs() []struct {
 	if prop == "C11" || prop == "C12" {
 		out = append(out, cb{Config{P: 1, W: 2, Size: 2, Writer: "returns", Early: true, TwoClose: true}, 2}, cb{Config{P: 1, W: 2, Size: 2, Poller: true, Writer: "returns", Early: true, TwoClose: true}, 2})
 	}
+	// a long poll interval, Close at any point
+	out = append(out, cb{Config{P: 1, W: 2, Size: 2, Poller: true, LongPoll: true, Writer: "returns", Early: prop != "C10"}, 2}, cb{Config{P: 2, W: 1, Size: 2, Poller: true, LongPoll: true, Writer: "returns"}, 2})
 	// a wrapped writer that reports failures: what it returns must not change what it is handed
 	for _, ek := range []string{"zero", "partial", "closed", "temporary"} {
 		out = append(out, cb{Config{P: 1, W: 3, Size: 4, Writer: "returns", Errs: ek}, 2}, cb{Config{P: 1, W: 3, Size: 4, Poller: true, Writer: "returns", Errs: ek}, 2})
